@@ -106,6 +106,11 @@ func (c RawConfiguration) handleAsyncCall(ctx context.Context, fut *Async, state
 			return
 		}
 		if len(errs)+len(replies) == state.expectedReplies {
+			if ctx.Err() != nil {
+				// the context ended (which may be why the remaining nodes failed)
+				fut.reply, fut.err = resp, QuorumCallError{cause: ctx.Err(), errors: errs, replies: len(replies)}
+				return
+			}
 			fut.reply, fut.err = resp, QuorumCallError{cause: Incomplete, errors: errs, replies: len(replies)}
 			return
 		}
